@@ -191,10 +191,12 @@ def main(argv=None):
         print(f"VIOLATION property={pid} replay={path}")
         print(f"  mechanism={mech} count={viol_counts.get(mech, 1)} detail={detail[:600]}")
         rc = 1
-    if rc == 0 and inconclusive:
+    if inconclusive:
+        # printed even next to a violation (a dead shard must not hide behind it); exit code: violation wins
         for why in inconclusive[:5]:
             print(f"INCONCLUSIVE property={pid} reason={why[:1000]}")
-        rc = 2
+        if rc == 0:
+            rc = 2
 
     wall = time.time() - t0
     if not args.no_evidence and not args.replay:
